@@ -48,10 +48,14 @@ def _excel_op(g, term: str):
     return None
 
 
+_POSTFIX_WORLDS: list = []
+
+
 def _forms(run, src, g, em):
     """emission forms: {('bin', excel op): (Skeleton, left atom, right atom), ('unary', op): (...), ('postfix','%'): (...)}
     taken from ExpressionToken production 0 / production 1 / OneLeftOperandExpressionToken"""
     forms = {}
+    _POSTFIX_WORLDS.clear()
     expr_prods = g.composites['ExpressionToken'].productions
     for e in em.emissions('ExpressionTokenTranslator', 'ExpressionToken'):
         o = e.outcome
@@ -78,6 +82,7 @@ def _forms(run, src, g, em):
             continue
         sk = skeleton_of(em, e)
         forms[('postfix', '%')] = (sk, _atom_for(sk, (0,)), None, e)
+        _POSTFIX_WORLDS.append((sk, _atom_for(sk, (0,)) if sk is not None else None, None, e))
     return forms
 
 
@@ -593,19 +598,24 @@ def r6(run: Run, src, g, em, rt, forms):
     pf = forms.get(('postfix', '%'))
     if pf is None:
         raise AnalysisError('C01.R6', 'no emission form for the postfix % operand')
-    sk, la, _, e = pf
-    ok = False
-    got = _plain(sk.text)
-    if sk.tree is not None:
-        b = sk.tree.body
-        if isinstance(b, ast.Call) and isinstance(b.func, ast.Attribute) and b.func.attr == '_normalize_float_number' and \
-                len(b.args) == 1 and isinstance(b.args[0], ast.BinOp) and isinstance(b.args[0].op, ast.Div) and \
-                _is_atom(b.args[0].left, la) and isinstance(b.args[0].right, ast.Constant) and b.args[0].right.value == 100 and \
-                type(b.args[0].right.value) is int:
-            ok = True
-    run.check(ok, 'C01.R6', 'postfix %/form', 'percent-form',
-              f'`x%` is printed as `{got}`; expected self._normalize_float_number(X / 100): an atomic call that divides by 100',
-              fact=got, loc=loc)
+    # every world of the postfix % (whatever the operand is: literal, cell, bracket) prints the same normalised division
+    shown = set()
+    for sk, la, _, e in (list(_POSTFIX_WORLDS) or [pf]):
+        ok = False
+        got = _plain(sk.text) if sk is not None else '<not text>'
+        if sk is not None and sk.tree is not None:
+            b = sk.tree.body
+            if isinstance(b, ast.Call) and isinstance(b.func, ast.Attribute) and b.func.attr == '_normalize_float_number' and \
+                    len(b.args) == 1 and isinstance(b.args[0], ast.BinOp) and isinstance(b.args[0].op, ast.Div) and \
+                    _is_atom(b.args[0].left, la) and isinstance(b.args[0].right, ast.Constant) and b.args[0].right.value == 100 and \
+                    type(b.args[0].right.value) is int:
+                ok = True
+        if (ok, got) in shown:
+            continue
+        shown.add((ok, got))
+        run.check(ok, 'C01.R6', 'postfix %/form', 'percent-form',
+                  f'`x%` is printed as `{got}` (world {e.world[:80]}); expected self._normalize_float_number(X / 100): an atomic call '
+                  f'that divides by 100 -- also for a literal operand', fact=got, loc=loc)
     # the same % followed directly by a signed operand (x%+y, x%-y) is parsed as [operand, % operator, expression]: there too the
     # % must become the division by 100 of the left operand, never Python's modulo
     bf = forms.get(('bin', '%'))
